@@ -193,7 +193,33 @@ def json_signature_verify(protected_seg: str | None, unprotected: dict | None, p
 
 # ------------------------------------------------------------------ JWE
 ENC = {"A128CBC-HS256": ("cbc", 16, "sha256"), "A192CBC-HS384": ("cbc", 24, "sha384"), "A256CBC-HS512": ("cbc", 32, "sha512"),
-       "A128GCM": ("gcm", 16, None), "A192GCM": ("gcm", 24, None), "A256GCM": ("gcm", 32, None)}
+       "A128GCM": ("gcm", 16, None), "A192GCM": ("gcm", 24, None), "A256GCM": ("gcm", 32, None),
+       "C20P": ("chacha", 32, 12), "XC20P": ("chacha", 32, 24)}       # drafts: draft-amringer-jose-chacha (nonce 96 / 192 bit)
+
+
+def _hchacha20(key: bytes, nonce16: bytes) -> bytes:
+    """HChaCha20 (draft-irtf-cfrg-xchacha): sub-key for XChaCha20 from the key and the first 16 nonce octets (pure Python)."""
+    def rotl(v, c):
+        return ((v << c) & 0xffffffff) | (v >> (32 - c))
+
+    def qr(s, a, b, c, d):
+        s[a] = (s[a] + s[b]) & 0xffffffff; s[d] = rotl(s[d] ^ s[a], 16)
+        s[c] = (s[c] + s[d]) & 0xffffffff; s[b] = rotl(s[b] ^ s[c], 12)
+        s[a] = (s[a] + s[b]) & 0xffffffff; s[d] = rotl(s[d] ^ s[a], 8)
+        s[c] = (s[c] + s[d]) & 0xffffffff; s[b] = rotl(s[b] ^ s[c], 7)
+    st = list(struct.unpack("<4I", b"expand 32-byte k")) + list(struct.unpack("<8I", key)) + list(struct.unpack("<4I", nonce16))
+    for _ in range(10):
+        qr(st, 0, 4, 8, 12); qr(st, 1, 5, 9, 13); qr(st, 2, 6, 10, 14); qr(st, 3, 7, 11, 15)
+        qr(st, 0, 5, 10, 15); qr(st, 1, 6, 11, 12); qr(st, 2, 7, 8, 13); qr(st, 3, 4, 9, 14)
+    return struct.pack("<8I", *(st[0:4] + st[12:16]))
+
+
+def _chacha_aead(cek: bytes, iv: bytes):
+    """-> (pyca ChaCha20Poly1305 object, 12-octet nonce); XChaCha20 = HChaCha20 sub-key + nonce 0000 || iv[16:24]"""
+    from cryptography.hazmat.primitives.ciphers.aead import ChaCha20Poly1305
+    if len(iv) == 24:
+        return ChaCha20Poly1305(_hchacha20(cek, iv[:16])), b"\x00" * 4 + iv[16:]
+    return ChaCha20Poly1305(cek), iv
 
 
 def enc_cek_len(enc):
@@ -205,6 +231,10 @@ def content_encrypt(enc, cek, iv, aad, pt):
     kind, n, h = ENC[enc]
     if kind == "gcm":
         out = AESGCM(cek).encrypt(iv, pt, aad)
+        return out[:-16], out[-16:]
+    if kind == "chacha":
+        a, nonce = _chacha_aead(cek, iv)
+        out = a.encrypt(nonce, pt, aad)
         return out[:-16], out[-16:]
     mac_key, enc_key = cek[:n], cek[n:]
     padder = sym_padding.PKCS7(128).padder()
@@ -225,6 +255,14 @@ def content_decrypt(enc, cek, iv, aad, ct, tag):
             raise RefError("iv/tag length")
         try:
             return AESGCM(cek).decrypt(iv, ct + tag, aad)
+        except InvalidTag:
+            raise RefError("tag")
+    if kind == "chacha":
+        if len(iv) != h or len(tag) != 16:
+            raise RefError("iv/tag length")
+        try:
+            a, nonce = _chacha_aead(cek, iv)
+            return a.decrypt(nonce, ct + tag, aad)
         except InvalidTag:
             raise RefError("tag")
     if len(iv) != 16:
